@@ -60,6 +60,7 @@ type verdicts struct {
 
 type step struct {
 	Op   string    `json:"op"`
+	Kind string    `json:"kind"` // "d" AddData, "h" AddHash
 	I    int       `json:"i"`
 	K    int       `json:"k"`
 	N    int       `json:"n"`
@@ -70,8 +71,10 @@ type step struct {
 }
 
 type table struct {
-	Len   int   `json:"len"`
-	Wits  []wit `json:"wits"`
+	Len   int      `json:"len"`
+	Kinds []string `json:"kinds"`
+	Data  []bool   `json:"data"` // is the data of item i in the bucket after Flush
+	Wits  []wit    `json:"wits"`
 	RWits []wit `json:"rwits"`
 }
 
@@ -122,6 +125,14 @@ func (w *world) sameWitness(real []mta.Witness, pred []welem) string {
 type acc struct {
 	a  *mta.Accumulator
 	bk db.Bucket
+}
+
+// add appends item i either with its data (AddData) or with its hash only (AddHash)
+func (x *acc) add(w *world, i int, kind string) []mta.Witness {
+	if kind == "h" {
+		return x.a.AddHash(w.term(i, 0))
+	}
+	return x.a.AddData(w.data(i))
 }
 
 func newAcc(bk db.Bucket) *acc {
@@ -229,9 +240,13 @@ func runTable(t *table, w *world, f *findings, st *stats) {
 	bk, _ := db.NewMapDB().GetBucket("mta")
 	x := newAcc(bk)
 	for i := 0; i < t.Len; i++ {
-		ws := x.a.AddData(w.data(i))
+		kind := "d"
+		if i < len(t.Kinds) {
+			kind = t.Kinds[i]
+		}
+		ws := x.add(w, i, kind)
 		if err := x.a.Verify(ws, w.term(i, 0)); err != nil {
-			f.viol("mta:add:witness", "length %d: the witness returned by AddData for item %d does not verify: %v", i+1, i, err)
+			f.viol("mta:add:witness", "length %d: the witness returned by Add(%s) for item %d does not verify: %v", i+1, kind, i, err)
 		}
 	}
 	if x.a.Len() != int64(t.Len) {
@@ -249,6 +264,12 @@ func runTable(t *table, w *world, f *findings, st *stats) {
 	if err != nil {
 		f.viol("mta:flush:error", "length %d: Flush fails: %v", t.Len, err)
 		return
+	}
+	for i, want := range t.Data { // item data is stored exactly for the items added with AddData
+		v, _ := bk.Get(w.term(i, 0))
+		if (v != nil) != want {
+			f.diverge("length %d: data of item %d in the bucket after Flush: %v, spec says %v", t.Len, i, v != nil, want)
+		}
 	}
 	y := newAcc(bk)
 	if err := y.a.Recover(); err != nil {
@@ -276,9 +297,9 @@ func runBehaviour(steps []step, w *world, f *findings) (fatalAt int) {
 			}
 			var ws []mta.Witness
 			for j := 0; j < k; j++ {
-				ws = x.a.AddData(w.data(n))
+				ws = x.add(w, n, s.Kind)
 				if err := x.a.Verify(ws, w.term(n, 0)); err != nil {
-					f.viol("mta:add:witness", "%s: the witness returned by AddData for item %d does not verify: %v", at, n, err)
+					f.viol("mta:add:witness", "%s: the witness returned by Add(%s) for item %d does not verify: %v", at, s.Kind, n, err)
 				}
 				n++
 			}
@@ -417,7 +438,7 @@ func TestReplay(t *testing.T) {
 			var sb strings.Builder
 			nontrivial = false
 			for _, s := range steps {
-				fmt.Fprintf(&sb, "%s%d.%d;", s.Op[:2], s.I, s.K)
+				fmt.Fprintf(&sb, "%s%s%d.%d;", s.Op[:2], s.Kind, s.I, s.K)
 				if s.Op == "recover" || s.Op == "wit" || s.Op == "all" {
 					nontrivial = true
 				}
